@@ -154,6 +154,9 @@ func (sc *scenario) describe(r *vlib.Rand) {
 	for _, b := range sc.badNotes {
 		h += ";bad:" + b
 	}
+	if sc.ErrPlan != "none" {
+		h += ";client-errors:" + sc.ErrPlan
+	}
 	sc.c.DistinctStr(h)
 	sc.c.Count("records_handed_over", int64(n))
 	if len(sc.badNotes) > 0 {
@@ -175,16 +178,16 @@ func (sc *scenario) describe(r *vlib.Rand) {
 				break
 			}
 			if h.Wire != nil {
-				packs = append(packs, map[string]interface{}{"encoded_zip_pack": vlib.Hex(h.Wire)})
+				packs = append(packs, map[string]interface{}{"encoded_zip_pack": vlib.Hex(h.Wire), "client_answered": h.answered()})
 			} else {
-				packs = append(packs, map[string]interface{}{"status": h.Status, "record_count": h.Count, "stored_bytes": len(h.Records)})
+				packs = append(packs, map[string]interface{}{"status": h.Status, "record_count": h.Count, "stored_bytes": len(h.Records), "client_answered": h.answered()})
 			}
 		}
 		var eps []interface{}
 		for _, e := range sc.Epochs {
 			eps = append(eps, map[string]interface{}{"settings": e.S, "configured": e.Configured})
 		}
-		sc.c.Sample(map[string]interface{}{"section": sc.Section, "path": sc.Path, "client_mode": string(sc.Mode),
+		sc.c.Sample(map[string]interface{}{"section": sc.Section, "path": sc.Path, "client_mode": string(sc.Mode), "client_errors": sc.ErrPlan,
 			"settings": eps, "records_handed_over": n, "first_records": recs, "packs_received": len(sc.hs), "first_packs": packs, "scenario": sc.Desc})
 	}
 }
@@ -205,6 +208,7 @@ func runAppend(c *vlib.Ctx, section string, r *vlib.Rand, useDefaults bool) {
 	s, cancel := freshDirect(client)
 	defer cancel()
 	sc := newScenario(c, section, "append", mode)
+	sc.setErrPlan(client, drawErrPlan(r))
 	sc.checkDefaults(readSettings(s))
 	apply := func() {
 		st := drawSettings(r, false, 0)
@@ -274,6 +278,7 @@ func runSendDirect(c *vlib.Ctx, section string, r *vlib.Rand, useDefaults bool) 
 	s, cancel := freshDirect(client)
 	defer cancel()
 	sc := newScenario(c, section, "senddirect", mode)
+	sc.setErrPlan(client, drawErrPlan(r))
 	sc.checkDefaults(readSettings(s))
 	apply := func() {
 		st := drawSettings(r, false, 0)
@@ -518,6 +523,7 @@ func runQueue(c *vlib.Ctx, section string, idx int, r *vlib.Rand, kind string) {
 	configured := kind == "config" || (capacity && idx%5 != 0)
 	client := newRecClient(mode, capacity)
 	sc := newScenario(c, section, "queue", mode)
+	sc.setErrPlan(client, drawErrPlan(r))
 
 	// plan the records first (the queue size must cover them in the non-capacity kinds)
 	nprod := r.Range(1, 8)
@@ -720,6 +726,7 @@ func runStop(c *vlib.Ctx, section string, idx int, r *vlib.Rand) {
 	mode := pickMode(r)
 	client := newRecClient(mode, false)
 	sc := newScenario(c, section, "queue", mode)
+	sc.setErrPlan(client, drawErrPlan(r))
 	timing := r.Intn(len(stopTimings))
 	configured := !r.Chance(1, 8)
 	if !configured && timing == 1 {
@@ -940,6 +947,7 @@ func runReconfig(c *vlib.Ctx, section string, idx int, r *vlib.Rand) {
 	mode := pickMode(r)
 	client := newRecClient(mode, true)
 	sc := newScenario(c, section, "queue", mode)
+	sc.setErrPlan(client, drawErrPlan(r))
 	configured := !r.Chance(1, 7) // else: the built-in defaults are in force until the reconfiguration
 	st := builtin
 	if configured {
